@@ -349,11 +349,29 @@ class FIXNewOrderSingle:
 
         elif fix_msg_type == FMsg.ORDERCANCELREJECT:  # '9'
             status_transitions = {
-                None: {
+                # order which was never sent can't get cancel reject
+                FOrdStatus.CREATED: {None: FIXError},
+                # finished orders never change their status
+                FOrdStatus.FILLED: {None: None},
+                FOrdStatus.CANCELED: {None: None},
+                FOrdStatus.REJECTED: {None: None},
+                FOrdStatus.EXPIRED: {None: None},
+                FOrdStatus.PENDING_CANCEL: {
                     FOrdStatus.CREATED: FIXError,
                     FOrdStatus.ACCEPTED_FOR_BIDDING: FIXError,
                     None: True,
-                }
+                },
+                FOrdStatus.PENDING_REPLACE: {
+                    FOrdStatus.CREATED: FIXError,
+                    FOrdStatus.ACCEPTED_FOR_BIDDING: FIXError,
+                    None: True,
+                },
+                None: {
+                    FOrdStatus.CREATED: FIXError,
+                    FOrdStatus.ACCEPTED_FOR_BIDDING: FIXError,
+                    FOrdStatus.PENDING_NEW: FIXError,
+                    None: True,
+                },
             }
         elif (
             fix_msg_type == FMsg.ORDERCANCELREQUEST
@@ -369,7 +387,9 @@ class FIXNewOrderSingle:
             }
 
         if not status_transitions:
-            raise FIXError(f"No status transition table for {fix_msg_type=}")
+            if raise_on_err:
+                raise FIXError(f"No status transition table for {fix_msg_type=}")
+            return None
 
         s = status_transitions.get(status, status_transitions[None])
         if isinstance(s, dict) and "exec_type" in s:
